@@ -33,9 +33,16 @@ func TestC16(t *testing.T) {
 	r.Assume("a receiver's ERC-20 account is the EVM address with the same 20 bytes; receivers whose address is not 20 bytes long are not judged for conversion (the statement does not say which EVM account is theirs)")
 	completed := false
 	defer func() {
-		if rec := recover(); rec != nil {
+		rec := recover()
+		switch {
+		case (rec != nil || !completed) && strings.HasPrefix(stage, "honest-ics20/"):
+			// an honest transfer between two teleport chains, with nothing hostile in play, did not go through
+			r.Eval("setup/"+stage, true)
+			r.Violation("world", "setup/"+stage+"/failed-on-a-chain-with-the-middleware", map[string]interface{}{"stage": stage, "panic": fmt.Sprint(rec),
+				"meaning": "while the test world was being built an honest ICS-20 transfer (valid MsgTransfer, valid relayed packet) failed: the middleware changed the outcome of the transfer"})
+		case rec != nil:
 			r.Inconclusive("harness panicked: %v", rec)
-		} else if !completed {
+		case !completed:
 			r.Inconclusive("test function aborted before completion (ibctesting helper called FailNow)")
 		}
 		r.Finish()
